@@ -155,8 +155,14 @@ def propagate_function(f, ref_names):
                 paths = {p_ for p_ in paths if p_ not in ('self',)}
                 MUTATORS = {'append', 'extend', 'pop', 'remove', 'insert', 'clear', 'update', 'add', 'discard', 'sort', 'reverse', 'popitem', 'setdefault', 'appendleft', 'popleft'}
                 last_stmt = max((k for k, s in enumerate(after) if any(n in uses_after for n in ast.walk(s))), default=-1)
-                for s in after[:last_stmt + 1]:
+                for k_s, s in enumerate(after[:last_stmt + 1]):
+                    own_targets = set()
+                    if k_s == last_stmt and isinstance(s, ast.Assign) and all(any(u is n_ for n_ in ast.walk(s.value)) for u in uses_after if any(u is n_ for n_ in ast.walk(s))):
+                        # the right-hand side is evaluated before the statement's own targets are stored
+                        own_targets = {id(n_) for t_ in s.targets for n_ in ast.walk(t_)}
                     for n in ast.walk(s):
+                        if id(n) in own_targets:
+                            continue
                         tgt = None
                         if isinstance(n, (ast.Subscript, ast.Attribute)) and isinstance(n.ctx, (ast.Store, ast.Del)):
                             tgt = n.value if isinstance(n, ast.Subscript) else n
